@@ -223,6 +223,14 @@ def run(ctx):
                           {"report": blk[:3000]})
         if rr["rc"] != 0 and "DATA RACE" not in rr["out"] and "--- FAIL" in rr["out"]:
             ctx.violation("stress:fail:%s" % test, "stress run failed (panic / deadlock?)", {"out": rr["out"][-3000:]})
+    # connection vs sweep without gates: each registration must end in one of the two serial outcomes
+    sp = os.path.join(ctx.scratch, "sweepmark.ndjson")
+    ctx.go_test(PKG, FILES, "lib", "^TestVerifSweepMarkStress$", env={"VERIF_OUT": sp, "VERIF_ROUNDS": 200 if thorough else 30}, timeout=900)
+    for x in ctx.read_results(sp):
+        if x.get("kind") == "prop":
+            ctx.violation("concurrent:sweep-vs-connection:%s" % x["prop"], "sweep racing with connections, outcome equals no serial order: %s" % x["detail"], x)
+        elif x.get("kind") == "summary":
+            ctx.stage("R", sweep_vs_connection={k: v for k, v in x.items() if k != "kind"})
     ctx.stage("R", race_reports=nraces, ms_per_variant=ms)
 
     ctx.cov["evaluations"] = summ[0]["behaviours"] + len(traces)
